@@ -118,7 +118,7 @@ def problem_text(pr):
          "A " + " ".join(row(r) for r in pr["A"]), "b " + row(pr["b"]),
          "G " + " ".join(row(r) for r in pr["G"]), "h " + row(pr["h"]),
          "lb " + " ".join("-inf" if x is None else dec(x) for x in pr["lb"]),
-         "ub " + " ".join("inf" if x is None else dec(x) for x in pr["ub"]), "end"]
+         "ub " + " ".join("inf" if x is None else dec(x) for x in pr["ub"]), "upd_end" if pr.get("update_of") else "end"]
     return "\n".join(" ".join(l.split()) for l in L) + "\n"
 
 
@@ -140,7 +140,9 @@ def parse_problem_text(text):
             cur[t[0]] = [v[i * n:(i + 1) * n] for i in range(len(v) // n if n else 0)]
         elif t[0] in ("c", "b", "h", "lb", "ub"):
             cur[t[0]] = [val(x) for x in t[1:]]
-        elif t[0] == "end":
+        elif t[0] in ("end", "upd_end"):
+            if t[0] == "upd_end":
+                cur["update_of"] = probs[-1]["name"] if probs else None
             probs.append(cur)
     return probs
 
@@ -156,8 +158,34 @@ def gen_problems(chk, rng):
         box = rng.choice([(0, 0), (1, 0), (0, 1), (0.5, 0.5), (1, 1)])
         if p == 0 and m == 0 and box == (0, 0) and rng.random() < 0.7:
             m = 2
-        probs.append(gen_problem(rng, f"q{k}", n, min(p, n - 1) if n > 1 else 0, m, box))
+        pr = gen_problem(rng, f"q{k}", n, min(p, n - 1) if n > 1 else 0, m, box)
+        probs.append(pr)
+        if (pr["p"] or pr["m"]) and k % 2 == 0:
+            probs.append(updated_problem(rng, pr))
     return probs
+
+
+def updated_problem(rng, pr):
+    """the same problem with new values (same sparsity patterns) of c, A, b, G, h: applied by the harness through update() to the
+    solver that has just solved `pr`; certified like any other problem against its own data"""
+    fac = lambda: rng.choice([F(1), F(5, 4), F(3, 4), F(2), F(-1)])
+    A = [[a * fac() for a in row] for row in pr["A"]]
+    G = [[g * fac() for g in row] for row in pr["G"]]
+    n = pr["n"]
+    x0 = [dy(rng, -16, 16) for _ in range(n)]
+    # keep the bounds of `pr` (they are not updated): choose the new interior point inside them
+    for j in range(n):
+        lo, hi = pr["lb"][j], pr["ub"][j]
+        if lo is not None and hi is not None:
+            x0[j] = (lo + hi) / 2
+        elif lo is not None:
+            x0[j] = lo + F(1, 2)
+        elif hi is not None:
+            x0[j] = hi - F(1, 2)
+    b = [sum(a * x for a, x in zip(row, x0)) for row in A]
+    h = [sum(a * x for a, x in zip(row, x0)) + dy(rng, 1, 16) for row in G]
+    c = [dy(rng, -16, 16) for _ in range(n)]
+    return dict(pr, name=pr["name"] + "u", A=A, G=G, b=b, h=h, c=c, update_of=pr["name"])
 
 
 # ----------------------------------------------------------------------------- certificate (exact)
